@@ -67,6 +67,7 @@ def _check_history(case, strict):
             # replies to some connected messages get lost (time-out, connection still usable): whatever the driver does next,
             # the following message needs a fresh count
             harness.CURRENT["drop"] = {harness.CURRENT["unit_sends"] + k for k in case["drops"]}
+            harness.CURRENT["raw_timeout"] = bool(case.get("raw_timeout"))
             cls.add("reply-dropped")
         for op in case["ops"]:
             try:
@@ -167,6 +168,7 @@ def histories(draw):
         else:
             ops.append({"op": k})
     return {"pd": pd, "seeds": seeds, "cfg": cfg, "ops": ops, "offset": draw(st.one_of(st.integers(0, 60), st.integers(0, 400))),
+            "raw_timeout": draw(st.booleans()),
             "drops": draw(st.one_of(st.just([]), st.just([]), st.lists(st.integers(0, 25), min_size=1, max_size=3, unique=True))),
             "entropy": draw(st.sampled_from(["os", "os", "os", "min", "max"]))}
 
